@@ -338,8 +338,45 @@ def canon_sites_mutations(T):
 # generators
 # ---------------------------------------------------------------------------------------
 
+def scramble_individuals(desc, rng):
+    """Permute the individual table (so a parent may be listed AFTER its child), add parent links
+    in both directions of the table order and a few unreferenced individuals in between."""
+    inds = [list(r) for r in desc["individuals"]]
+    n = len(inds)
+    for _ in range(rng.randrange(0, 3)):
+        inds.insert(rng.randrange(len(inds) + 1) if inds else 0, None)      # placeholders = new rows
+    # positions of the old rows after insertion
+    old_pos = [k for k, r in enumerate(inds) if r is not None]
+    order = list(range(len(inds)))
+    rng.shuffle(order)                                   # new row k holds old slot order[k]
+    where = {slot: k for k, slot in enumerate(order)}
+    rows = []
+    for k, slot in enumerate(order):
+        r = inds[slot]
+        if r is None:
+            r = [rng.randrange(0, 4), [rng.randrange(-3, 4) for _ in range(rng.randrange(0, 2))], [], gen_ts.hx(rng)]
+        else:
+            r = [r[0], list(r[1]), [where[old_pos[p]] if p != NULL else NULL for p in r[2]], r[3]]
+        rows.append(r)
+    # extra parent links that respect no table order (but keep the relation acyclic: only from a
+    # row to rows of smaller ORIGINAL slot number — the direction gen_ts uses —, which the shuffle
+    # scatters over the table)
+    for k, slot in enumerate(order):
+        later = [where[s2] for s2 in range(0, slot)]
+        if later and rng.random() < 0.5:
+            rows[k][2] = rows[k][2] + [rng.choice(later)]
+    d = dict(desc)
+    d["individuals"] = rows
+    d["nodes"] = [[nd[0], nd[1], nd[2], (where[old_pos[nd[3]]] if nd[3] != NULL else NULL), nd[4]]
+                  for nd in desc["nodes"]]
+    return d
+
+
 def gen_desc(rng, max_nodes=8):
-    return gen_ts.random_desc(rng, max_nodes=max_nodes, migrations=False)
+    d = gen_ts.random_desc(rng, max_nodes=max_nodes, migrations=False)
+    if rng.random() < 0.5:
+        d = scramble_individuals(d, rng)
+    return d
 
 
 def time_consistent_individuals(desc, rng):
@@ -1148,7 +1185,194 @@ class Malformed(Family):
         return {"kind": case["kind"], "result": obs["result"] if obs["result"] == "accepted" else obs["result"]["code"] or obs["result"]["error"]}
 
 
-FAMILIES = [Subset, Union, Inverse, Malformed]
+# ---------------------------------------------------------------------------------------
+# Family: integrity  (the guard both functions run first: check_integrity(…, 0))
+# ---------------------------------------------------------------------------------------
+
+CORRUPTIONS = ("node-pop-oob", "node-pop-neg", "node-ind-oob", "node-ind-neg", "edge-parent-null",
+               "edge-parent-oob", "edge-child-null", "edge-child-oob", "edge-interval", "edge-time",
+               "edge-left-neg", "site-pos-neg", "mut-site-oob", "mut-node-oob", "mut-parent-oob",
+               "mut-parent-neg", "mut-parent-self", "mut-time-younger", "mut-parent-other-site",
+               "ind-parent-oob", "ind-parent-neg", "ind-parent-self")
+
+
+def corrupt(T, kind, rng):
+    """One broken reference / interval / time in an otherwise valid collection; None if the
+    collection has no row of the needed kind."""
+    T = {k: ([[x if not isinstance(x, list) else list(x) for x in r] for r in v] if k != "L" else v)
+         for k, v in T.items()}
+    nn, ne, ns, nm = len(T["nodes"]), len(T["edges"]), len(T["sites"]), len(T["mutations"])
+    ni, npop = len(T["individuals"]), len(T["populations"])
+    t, row = kind.split("-", 1)
+    if t == "node":
+        if not nn:
+            return None
+        r = T["nodes"][rng.randrange(nn)]
+        if row == "pop-oob":
+            r[2] = npop + rng.randrange(0, 3)
+        elif row == "pop-neg":
+            r[2] = -2 - rng.randrange(0, 3)
+        elif row == "ind-oob":
+            r[3] = ni + rng.randrange(0, 3)
+        else:
+            r[3] = -2 - rng.randrange(0, 3)
+    elif t == "edge":
+        if not ne:
+            return None
+        e = T["edges"][rng.randrange(ne)]
+        if row == "parent-null":
+            e[2] = NULL
+        elif row == "parent-oob":
+            e[2] = rng.choice([nn, nn + 4, -3])
+        elif row == "child-null":
+            e[3] = NULL
+        elif row == "child-oob":
+            e[3] = rng.choice([nn, nn + 4, -3])
+        elif row == "interval":
+            e[1] = e[0] - rng.randrange(0, 2)
+        elif row == "time":
+            e[2], e[3] = e[3], e[2]
+        else:
+            e[0] = -1
+    elif t == "site":
+        if not ns:
+            return None
+        T["sites"][rng.randrange(ns)][0] = -1
+    elif t == "mut":
+        if not nm:
+            return None
+        j = rng.randrange(nm)
+        m = T["mutations"][j]
+        if row == "site-oob":
+            m[0] = rng.choice([ns, ns + 2, -1, -4])
+        elif row == "node-oob":
+            m[1] = rng.choice([nn, nn + 2, -1, -4])
+        elif row == "parent-oob":
+            m[3] = nm + rng.randrange(0, 3)
+        elif row == "parent-neg":
+            m[3] = -2 - rng.randrange(0, 3)
+        elif row == "parent-self":
+            m[3] = j
+        elif row == "time-younger":
+            if m[4] is None:
+                return None
+            m[4] = T["nodes"][m[1]][1] - 1
+        else:
+            other = [k for k in range(nm) if T["mutations"][k][0] != m[0]]
+            if not other:
+                return None
+            m[3] = rng.choice(other)
+    else:
+        if not ni:
+            return None
+        j = rng.randrange(ni)
+        r = T["individuals"][j]
+        if row == "parent-oob":
+            r[2] = r[2] + [ni + rng.randrange(0, 3)]
+        elif row == "parent-neg":
+            r[2] = [-2 - rng.randrange(0, 3)] + r[2]
+        else:
+            r[2] = r[2] + [j]
+    return T
+
+
+def undump_raw(T, scale):
+    """Like undump, but ids below NULL survive: rows are added with such ids clipped to NULL and
+    the id columns are then overwritten as arrays (add_row refuses ids < -1 in Python)."""
+    import numpy as np
+    clip = lambda x: x if x >= NULL else NULL
+    C = dict(T)
+    C["nodes"] = [[fl, t, clip(p), clip(i), m] for fl, t, p, i, m in T["nodes"]]
+    C["edges"] = [[l, r, clip(p), clip(c), m] for l, r, p, c, m in T["edges"]]
+    C["mutations"] = [[clip(s_), clip(u), d, clip(par), t, m] for s_, u, d, par, t, m in T["mutations"]]
+    C["individuals"] = [[fl, loc, [clip(p) for p in par], m] for fl, loc, par, m in T["individuals"]]
+    tc = undump(C, scale)
+    i32 = lambda xs: np.array(xs, dtype=np.int32)
+    if T["nodes"]:
+        tc.nodes.population = i32([r[2] for r in T["nodes"]])
+        tc.nodes.individual = i32([r[3] for r in T["nodes"]])
+    if T["edges"]:
+        tc.edges.parent = i32([r[2] for r in T["edges"]])
+        tc.edges.child = i32([r[3] for r in T["edges"]])
+    if T["mutations"]:
+        tc.mutations.site = i32([r[0] for r in T["mutations"]])
+        tc.mutations.node = i32([r[1] for r in T["mutations"]])
+        tc.mutations.parent = i32([r[3] for r in T["mutations"]])
+    if T["individuals"]:
+        flat = [p for r in T["individuals"] for p in r[2]]
+        tc.individuals.parents = i32(flat)
+    return tc
+
+
+class Integrity(Family):
+    name = "integrity"
+    prelude = PRELUDE
+    workers = 6
+
+    def generate(self, rng, tier):
+        for _ in range(260 if tier == "quick" else 2600):
+            d = gen_desc(rng, max_nodes=6)
+            yield {"desc": d, "kinds": [rng.choice(CORRUPTIONS) for _ in range(rng.choice([1, 1, 1, 2]))],
+                   "seed": rng.randrange(1 << 30), "where": rng.choice(["subset", "union-self", "union-other"]),
+                   "ru": rng.random() < 0.5, "rp": rng.random() < 0.5}
+
+    def observe(self, case):
+        d = case["desc"]
+        scale = d.get("scale", 1)
+        good = desc_tables(d)
+        rng = random.Random(case["seed"])
+        bad, applied = good, []
+        for k in case["kinds"]:
+            b2 = corrupt(bad, k, rng)
+            if b2 is not None:
+                bad, applied = b2, applied + [k]
+        obs = {"good": good, "bad": bad, "applied": applied}
+        tb, tg = undump_raw(bad, scale), undump(good, scale)
+        n = len(good["nodes"])
+        try:
+            if case["where"] == "subset":
+                tb._ll_tables.subset(_i32(list(range(n))), reorder_populations=case["rp"],
+                                     remove_unreferenced=case["ru"])
+                obs["result"] = dump(tb, scale)
+            else:
+                s, o = (tb, tg) if case["where"] == "union-self" else (tg, tb)
+                s.union(o, list(range(n)), check_shared_equality=False, record_provenance=False)
+                obs["result"] = dump(s, scale)
+        except Exception as e:
+            obs["result"] = exc(e)
+        return obs
+
+    def oracle(self, case, obs):
+        # property text: only valid collections are operated on — a collection with a dangling
+        # reference, an empty interval or a parent not older than its child must be refused
+        if obs["applied"] and "error" not in obs["result"]:
+            return [("invalid-collection-accepted-" + "+".join(obs["applied"]), "%s accepted" % case["where"])]
+        if not obs["applied"] and "error" in obs["result"]:
+            return [("valid-collection-refused", repr(obs["result"]))]
+        return []
+
+    def coq_check(self, case, obs):
+        n = len(obs["good"]["nodes"])
+        if case["where"] == "subset":
+            call = "subset_checked %s %s %s %s" % (coq_tables(obs["bad"]), czl(range(n)),
+                                                   "true" if not case["ru"] else "false",
+                                                   "true" if not case["rp"] else "false")
+        else:
+            s, o = (obs["bad"], obs["good"]) if case["where"] == "union-self" else (obs["good"], obs["bad"])
+            call = "union_checked %s %s %s false true" % (coq_tables(s), coq_tables(o), czl(range(n)))
+        if "error" in obs["result"]:
+            return coq_expect_error(call, obs["result"])
+        return "res_tables_eqb (%s) %s" % (call, coq_tables(obs["result"]))
+
+    def nontrivial(self, case, obs):
+        return bool(obs["applied"])
+
+    def describe(self, case, obs):
+        return {"where": case["where"], "applied": "+".join(obs["applied"]) or "none",
+                "result": obs["result"].get("code", "ok") if "error" in obs["result"] else "ok"}
+
+
+FAMILIES = [Subset, Union, Inverse, Malformed, Integrity]
 
 NOT_COVERED = [
     "migrations (subset/union refuse any table collection with migrations)",
